@@ -298,8 +298,8 @@ def exact_rule(chk, fx):
     """bounds of refinement types are compared with ValueObj::try_cmp: two integers must be compared as integers"""
     from sa import matcheval as M
     VAL = 'crates/erg_compiler/ty/value.rs'
-    chk.rule('C03-exact', 'ValueObj::try_cmp (the order behind try_compare of refinement bounds) decides a pair of integer values (Int / Nat in any combination) in an arm that does not '
-                          'convert to f64: through f64, 2^53 and 2^53 + 1 are Equal, `f x: {9007199254740993}` accepts 9007199254740992')
+    chk.rule('C03-exact', 'ValueObj::try_cmp (the order behind try_compare of refinement bounds) decides a pair of integer values (Int / Nat in any combination) in an arm that converts '
+                          'neither to f64 nor through a narrowing / sign-changing `as` cast: through f64, 2^53 and 2^53 + 1 are Equal, through `as i64` 2^64 - 1 is -1, `f x: {9007199254740993}` accepts 9007199254740992')
     f = fx.fn(VAL, 'ValueObj::try_cmp')
     ms = [m for m in T.walk(f['body']) if m.get('k') == 'Match' and m.get('src') == 'Normal' and T.peel(m['x']).get('k') == 'Tup']
     if not chk.need(len(ms) >= 1, 'try_cmp: no match over the pair (self, other)'):
@@ -315,12 +315,21 @@ def exact_rule(chk, fx):
             return True
         return None
 
+    types = fx.file(VAL)['types']
+    INTS = {'i8': (8, 1), 'i16': (16, 1), 'i32': (32, 1), 'i64': (64, 1), 'i128': (128, 1), 'isize': (64, 1), 'u8': (8, 0), 'u16': (16, 0), 'u32': (32, 0), 'u64': (64, 0), 'u128': (128, 0), 'usize': (64, 0)}
+
     def lossy(b):
         for n in T.walk(b):
             if n.get('k') in ('Call', 'MCall') and 'f64' in (T.callee(n) or '') + T.show(n)[:40]:
                 return T.show(n)[:50]
             if n.get('k') == 'Cast' and 'f64' in T.show(n):
                 return T.show(n)[:50]
+            if n.get('k') == 'Cast' and isinstance(n.get('from'), int) and isinstance(n.get('ty'), int):
+                a, z = INTS.get(types[n['from']]), INTS.get(types[n['ty']])
+                if a and z:
+                    keeps = (a[1] == z[1] and z[0] >= a[0]) or (a[1] == 0 and z[1] == 1 and z[0] > a[0])
+                    if not keeps:
+                        return '%s (%s -> %s)' % (T.show(n)[:40], types[n['from']], types[n['ty']])
         return None
     adt = fx.adt('erg_compiler', 'ty::value::ValueObj')
     width = {v['n']: v['f'][0]['t'] for v in adt['variants'] if v['n'] in ('Int', 'Nat') and v.get('f')}
@@ -357,8 +366,8 @@ def exact_rule(chk, fx):
         elif verdict[0] == 'exact':
             chk.ok('C03-exact', key, sample='(%s): %s' % (key, T.show(verdict[1]['b'])[:60]))
         else:
-            chk.bad('C03-exact', 'ValueObj::try_cmp', 'pair:' + key, 'try_cmp compares (%s) through `%s`: integers above 2^53 that differ compare Equal, so a refinement bound or singleton '
-                    'is satisfied by a neighbouring value' % (key, verdict[2]), VAL, verdict[1].get('l'))
+            chk.bad('C03-exact', 'ValueObj::try_cmp', 'pair:' + key, 'try_cmp compares (%s) through `%s`, a conversion that does not keep every value (f64 merges integers above 2^53, a narrowing '
+                    'or sign-changing `as` wraps): a refinement bound is satisfied by values outside it' % (key, verdict[2]), VAL, verdict[1].get('l'))
 
 
 def sym(a):
